@@ -334,6 +334,20 @@ func runScenario(sc Scenario, out *json.Encoder, nqmax int) (status string) {
 		rec.mu.Unlock()
 	}
 
+	// what every D2H destination of a queue holds at the moment DrainCommandQueue returns to the application thread:
+	// "a call that waits for a queue to drain returns only after all earlier commands have completed"
+	var emu sync.Mutex
+	early := map[opRef]int{}
+	drain := func(q int) {
+		d.DrainCommandQueue(queues[q])
+		emu.Lock()
+		defer emu.Unlock()
+		for o, a := range host {
+			if o.q == q {
+				early[o] = uniform(a)
+			}
+		}
+	}
 	done := make(chan struct{})
 	go func() {
 		switch sc.Drain {
@@ -341,16 +355,16 @@ func runScenario(sc Scenario, out *json.Encoder, nqmax int) (status string) {
 			var wg sync.WaitGroup
 			for q := 1; q <= sc.NQ; q++ {
 				wg.Add(1)
-				go func(q int) { defer wg.Done(); d.DrainCommandQueue(queues[q]) }(q)
+				go func(q int) { defer wg.Done(); drain(q) }(q)
 			}
 			wg.Wait()
 		case "rev":
 			for q := sc.NQ; q >= 1; q-- {
-				d.DrainCommandQueue(queues[q])
+				drain(q)
 			}
 		default:
 			for q := 1; q <= sc.NQ; q++ {
-				d.DrainCommandQueue(queues[q])
+				drain(q)
 			}
 		}
 		close(done)
@@ -376,6 +390,12 @@ func runScenario(sc Scenario, out *json.Encoder, nqmax int) (status string) {
 		}
 	}
 	if status == "ok" {
+		for o, v := range early {
+			if a, ok := host[o]; ok && uniform(a) != v {
+				// the drain returned while the destination of this completed D2H was still being written
+				rec.emit(map[string]interface{}{"e": "ReturnedBeforeData", "q": o.q, "i": o.i, "at_return": v, "final": uniform(a)})
+			}
+		}
 		rec.emit(map[string]interface{}{"e": "End"})
 	} else {
 		rec.emit(map[string]interface{}{"e": "Timeout"})
